@@ -4,6 +4,7 @@ import (
 	_ "verif/mc/checks/c01"
 	_ "verif/mc/checks/c02"
 	_ "verif/mc/checks/c09"
+	_ "verif/mc/checks/c11"
 	_ "verif/mc/checks/c12"
 	_ "verif/mc/checks/fmt3"
 	_ "verif/mc/checks/c13"
